@@ -27,6 +27,8 @@ ASSUMPTIONS = [
 
 FORMS = [("raw", "num"), ("raw", "array"), ("raw", "bool"), ("raw", "str"),
          ("raw", "tuple2"), ("raw", "dataset"), ("raw", "iarray"),
+         ("raw", "mat23"), ("raw", "cube213"), ("ds", "mat23"),
+         ("ds", "cube213"),
          ("ds", "iarray"), ("ds", "num"), ("ds", "array"),
          ("ds", "bool"), ("ds", "str"), ("ds", "dataset"), ("df", "num"),
          ("df", "str")]
@@ -114,10 +116,20 @@ def check_case(case):
     if kind in ("array", "iarray"):
         dskw = dict(var_names="out", var_dims={"out": ["t"]},
                     var_coords={"t": [0, 1, 2]})
+    elif kind == "mat23":
+        dskw = dict(var_names=["m", "s"], var_dims={"m": ["r", "c"]})
+    elif kind == "cube213":
+        dskw = dict(var_names="out", var_dims={"out": ["p", "q", "r"]})
     elif kind == "dataset":
         dskw = dict(var_names=None)
     else:
         dskw = dict(var_names="out")
+
+    def shapes(x):
+        try:
+            return np.shape(x)
+        except ValueError:  # ragged: outputs of different shapes
+            return tuple(np.shape(y) for y in x)
 
     def reap(**kw):
         c = crop if case.get("live") else xyz.Crop(name="k", parent_dir=d)
@@ -188,10 +200,10 @@ def check_case(case):
                     if not cmp.leaf_missing(v):
                         probs.append("slot %r of an unfinished batch holds %r"
                                      % (kw, v))
-                    elif kind in ("array", "iarray", "tuple2") and (
-                            np.shape(v) != np.shape(want)):
+                    elif kind in ("array", "iarray", "tuple2", "mat23",
+                                  "cube213") and shapes(v) != shapes(want):
                         probs.append("placeholder shape %r, real %r"
-                                     % (np.shape(v), np.shape(want)))
+                                     % (shapes(v), shapes(want)))
             else:
                 try:
                     cell = res.sel(kw)
@@ -200,8 +212,10 @@ def check_case(case):
                     continue
                 if kind == "dataset":
                     wv = {v_: want[v_].values for v_ in want.data_vars}
-                elif kind in ("array", "iarray"):
+                elif kind in ("array", "iarray", "cube213"):
                     wv = {"out": np.asarray(want)}
+                elif kind == "mat23":
+                    wv = {"m": want[0], "s": want[1]}
                 else:
                     wv = {"out": want}
                 for v_, w_ in wv.items():
@@ -253,5 +267,31 @@ def check_case(case):
     except Exception as e:
         vio.append((key("full-raised:" + type(e).__name__),
                     "growing the rest and reaping raised %r" % e))
+    # ---- the same long-lived Crop object sown again with one setting more or
+    # less (same number of batches, another last batch), partial reap again --
+    N2 = next((m for m in (N + 1, N - 1)
+               if m >= 2 and -(-m // req) == B and B >= 2), None) \
+        if (case.get("live") and mode == "batchsize") else None
+    if N2 is not None:
+        try:
+            combos = {"a": vals(N2)}
+            if len(args) == 2:
+                combos["b"] = vals(1, 10)
+            crop.sow_combos(combos, shuffle=case["shuffle"], verbosity=0)
+            with xfn.CallLog() as log:
+                for i in range(1, B):
+                    grow(i, crop=crop, verbosity=0)
+            have = set(log.encs())
+            res = reap(allow_incomplete=True)
+            probs = judge(res, full=False)
+            if probs:
+                vio.append((key("resown-partial-wrong"),
+                            "the same Crop object sown again with %d settings "
+                            "(was %d), batches 1..%d finished: %s"
+                            % (N2, N, B - 1, "; ".join(probs[:3]))))
+        except Exception as e:
+            vio.append((key("resown-raised:" + type(e).__name__),
+                        "the same Crop object sown again with %d settings "
+                        "(was %d), partial reap raised %r" % (N2, N, e)))
     return {"nontrivial": True, "outcome": "%s/%s:%s" % (form, kind, outcome),
             "violations": vio}
